@@ -38,8 +38,11 @@ def extra(ctx: fw.Ctx):
                 again = "<raises " + type(exc).__name__ + ">"
             if again != r.out:
                 scoped = r.op[1].startswith("@")
-                ctx.fail({"clause": "edit-output-fixed-point", "op": r.op[0], "scoped": scoped,
-                          "wrapper": h.info.get("wrapper"), "kind": "raises" if again.startswith("<raises") else "drift"},
+                key = {"clause": "edit-output-fixed-point", "op": r.op[0], "scoped": scoped,
+                       "wrapper": h.info.get("wrapper"), "kind": "raises" if again.startswith("<raises") else "drift"}
+                if r.op[0] == "set" and ("#" in r.op[2] or "/*" in r.op[2]):
+                    key["value_comment"] = True  # the VALUE itself carries a comment
+                ctx.fail(key,
                          {"text": r.out, "doc": h.text, "ops": [list(x.op) for x in h.recs], "at": list(r.op)},
                          f"output of {r.op!r} is not a fixed point: {r.out!r} -> {again!r}")
 
